@@ -194,13 +194,30 @@ def const_input(ctx, b, blk, kind):
     return False, "?"
 
 
+def counts_objects(ctx, b, blk):
+    """the checked addition of this block adds a `len()` of a collection to a usize accumulator"""
+    for b2, i, st in b.stmts():
+        if b2 == blk and st["k"] == "assign" and st["r"]["k"] == "binop" and st["r"].get("op") == "AddWithOverflow" and st["p"]["ty"].startswith("(usize"):
+            es = [ctx.expr(b, st["r"]["a"]), ctx.expr(b, st["r"]["b"])]
+            return any(re.match(r"^(len\(|[\w:<>, ']*::len\()", e) for e in es)
+    return False
+
+
 def panic_census(ctx, rule, bodies, scope):
     """Rule C: every panic-capable site of `bodies` matches a row of PANIC_TABLE owned by `scope`
     and satisfies the row's guard.  Returns the list of sites."""
     sites = census_sites(ctx, bodies)
     counts = {}
     for b, blk, kind, detail in sites:
-        counts.setdefault((owner_key(b.key), kind), []).append((b, blk, detail))
+        # a site in a private helper with one call site belongs to the function it was cut out of
+        # (the row and its guard name that function; the path condition is imported by pc_strs)
+        home = b
+        for _ in range(2):
+            up = ctx.caller_of(home) if home.kind in ("Fn", "AssocFn") else None
+            if up is None or (owner_key(home.key), kind) in PANIC_TABLE:
+                break
+            home = up
+        counts.setdefault((owner_key(home.key), kind), []).append((b, blk, detail))
     for (fn, kind), lst in sorted(counts.items()):
         row = PANIC_TABLE.get((fn, kind))
         if row is None:
@@ -212,6 +229,9 @@ def panic_census(ctx, rule, bodies, scope):
                     if ok:
                         ctx.ob(rule + ".const-input", fn, kind, True, "constant input: %s" % what)
                         continue
+                if kind == "overflow-assert" and counts_objects(ctx, b, blk):
+                    ctx.ob(rule + ".object-count", fn, kind, True, "usize sum of lengths of in-memory collections (what `.iter().map(len).sum()` computes): bounded by the address space")
+                    continue
                 ctx.ob(rule + ".unlisted", fn, "%s %s" % (kind, detail), False,
                        "panic-capable construct without a table row; path condition: %s" % (ctx.pc_strs(b, blk),))
             continue
